@@ -109,7 +109,10 @@ def run(ctx):
           sizes = [5] + [int(rng.integers(14, 20)) for _ in range(ncls - 1)]     # one small class, the others large
         data = fits.make_data(rng, n_classes=ncls, n_per_class=sizes)
         X, y = data['X'], data['y'].copy()
-        if rng.random() < 0.5:
+        if layout == 'full' and rep == 0:
+          y = 3 * y + 1                                     # gapped label names (deterministic case, with the default n_constraints below)
+          ctx.hist('label_names', 'gapped (3y+1)')
+        elif rng.random() < 0.5:
           y = fits.encode_labels(rng, data)['y'].copy()     # class labels are names: 1-based, tens, gapped
           ctx.hist('label_names', 'renamed')
         n = len(y)
@@ -153,7 +156,7 @@ def run(ctx):
             nk = int(np.sum(y >= 0))
             cap = nk * 2 * min(len(np.unique(y[y >= 0])) - 1, X.shape[1]) - 1
             kw['n_basis'] = int(min(kw.get('n_basis') or cap, cap))
-        elif layout == 'full' and variant == 0:
+        elif layout == 'full' and (variant == 0 or rep == 0):
           kw['n_constraints'] = None      # the documented default 20 * n_classes^2 (fully labelled data only)
         else:
           kw['n_constraints'] = int(rng.integers(8, 40))
